@@ -16,6 +16,7 @@ from vlib import *
 SPECDIR = "updatescripts"
 TXTAR_TLA = os.path.join(SPEC, "txtar", "Txtar.tla")     # the format semantics of C03/C14, reused as is
 SHARDS = 8
+SIM_WORKERS = dict(quick=3, thorough=4)
 
 INVARIANTS = ("InvCanonical InvVerdict InvNoRewrite InvNeverModify InvPreserve InvHoldsActual InvUnquotable "
               "InvSecondRun InvShape")
@@ -88,17 +89,18 @@ def check(ctx):
     quick = ctx.tier == "quick"
     allc = [1, 2, 3, 4, 5]
     # (MaxSlots, KindMode, Cs, ArchG, ByOpts, driver stride, walks per worker); bounds fitted to measured counts, see REGISTRY.
-    # walks = 0: TLC explores every state; walks > 0: seeded random walks (-simulate, 4 workers) through the full slot
-    # domain with three goldens, beyond what is enumerated
+    # walks = 0: TLC explores every state; walks > 0: seeded random walks (-simulate, SIM_WORKERS workers) through a slot
+    # domain with three goldens that is too large to enumerate; TLC checks and emits EVERY successor of every state on a
+    # walk (measured: 6 walks x 3 steps x 135 core slots = 2,430 scripts; 32 walks x 3 x 255 full slots = 24,480)
     if quick:
         runs = [(1, "full", allc, [1, 2, 6], [True, False], 1, 0),
-                (2, "core", [2, 3, 4, 5], [2, 6], [True], 1, 0),
-                (3, "full", allc, [1, 2, 6], [True, False], 1, 50)]
+                (2, "core", [2, 4, 5], [2, 6], [True], 1, 0),
+                (3, "core", allc, [1, 2, 6], [True, False], 1, 2)]
     else:
         runs = [(1, "full", allc, [1, 2, 6], [True, False], 1, 0),
                 (2, "core", allc, [1, 2, 6], [True, False], 1, 0),
                 (3, "mini", [2, 4, 5], [2, 6], [False], 1, 0),
-                (3, "full", allc, [1, 2, 6], [True, False], 1, 1500)]
+                (3, "full", allc, [1, 2, 6], [True, False], 1, 8)]
     t_last = [time.time()]
 
     def phase(name):
@@ -120,7 +122,7 @@ def check(ctx):
             cases = ctx.path("cases%d.ndjson" % k)
             if spec[6]:
                 res = tlc(ctx, SPECDIR, "MC_UpdateScripts.tla", "MC_gen%d.cfg" % k, cfg_text=gen_cfg(*spec[:5]), emit_to=cases,
-                          workers=4, timeout=3000, files=[TXTAR_TLA], name="sim%d" % k, simulate="num=%d" % spec[6],
+                          workers=SIM_WORKERS[ctx.tier], timeout=3000, files=[TXTAR_TLA], name="sim%d" % k, simulate="num=%d" % spec[6],
                           depth=spec[0] + 1, expect_violation=True)
                 if res.violation or res.emits < 2:
                     raise NoVerdict("TLC reported an error while simulating scripts (or produced nothing): spec-level "
@@ -222,8 +224,13 @@ REGISTRY = dict(
           "the actual content (quoted when it has marker lines), an unquotable content changes nothing, the second run never writes "
           "and passes when every stored content is representable. TLC checks the machine against the laws for every enumerated script "
           "and emits one case per state; the driver runs the real testscript.RunT (recording T, real exec of a helper) twice per "
-          "script on a scratch copy and compares verdicts, bytes and the parsed archive. Bug_*.cfg (NoQuoteLastLine, UpdateOnCmpenv, "
-          "UpdateOnNeg, RewriteAlways, ShiftEntry) and a tampering driver (-selfbug) are the --selftest."),
+          "script on a scratch copy and compares verdicts, bytes and the parsed archive. Measured: quick = all 512 one-golden scripts "
+          "(12 src x cmp kinds, 5 contents, 5 goldens, with / without untouched entries) + 4,161 two-golden scripts (core kinds, "
+          "contents 'x\\n' / needs-quote / unquotable) + 2,432 three-golden scripts on 6 seeded random walks = ~7,100 scripts, ~15,500 "
+          "real runs, 25-60 s depending on machine load. thorough = 512 + 36,722 (all two-golden core scripts) + 47,989 (all "
+          "three-golden scripts over 3 kinds x 3 contents x 4 goldens) + 24,482 on 32 random walks through the full domain = ~110,000 "
+          "scripts, ~217,000 real runs, 5-10 min. Bug_*.cfg (NoQuoteLastLine, UpdateOnCmpenv, UpdateOnNeg, RewriteAlways, "
+          "ShiftEntry) and a tampering driver (-selfbug comment / swap / other / revert) are the --selftest."),
     note="trusted: TLC, Txtar.tla / UpdateScripts.tla, the driver's comparison code, the tree's txtar.Parse for reading the file "
          "back (judged by C03); verdict of runs that fail for a non-updatable comparison is compared with the model as drift only",
     technique="TLA+ model + laws model-checked by TLC; one generated script per state replayed twice into testscript.RunT")
